@@ -16,6 +16,7 @@ var suitesByProp = map[string][]func(*runner, *rng){
 	"C10": {suiteFragment},
 	"C11": {suiteUnfragment},
 	"C13": {suiteOptimize},
+	"C16": {suiteDur},
 }
 
 func main() {
